@@ -108,3 +108,15 @@ Section ExprInd.
 End ExprInd.
 
 Definition metric_name := "__name__".
+
+(** stringLiteralValue (source.go, fix 53ade46) / the engine's unwrapParenExpr: the value of a string literal, looking through
+    any parentheses around it; [None] for anything else *)
+Fixpoint lit_val (e : expr) : option string :=
+  match e with
+  | EParen e' => lit_val e'
+  | EStr s => Some s
+  | _ => None
+  end.
+
+Definition lit_of (e : option expr) : option string :=
+  match e with Some a => lit_val a | None => None end.
